@@ -214,6 +214,12 @@ fn handle(req: &Value) -> Value {
                 Err(e) => json!({"ok": false, "err": errcode(&e), "bank": dump_bank(&bank)}),
             }
         }
+        "override_emissions_flag" => {
+            let mut bank = mk_bank(req.get("bank"));
+            bank.override_emissions_flag(i128v(&req["flag"]) as u64);
+            json!({"ok": true, "bank": dump_bank(&bank)})
+        }
+        "entry" => entry_call(req),
         "remaining_deposit_capacity" => {
             let bank = mk_bank(req.get("bank"));
             match bank.get_remaining_deposit_capacity() {
@@ -223,6 +229,96 @@ fn handle(req: &Value) -> Value {
         }
         _ => json!({"error": format!("unknown fn {f}")}),
     }
+}
+
+// ---------------------------------------------------------------- real program entry (dispatch -> try_accounts -> handler -> exit)
+struct Acc { key: Pubkey, owner: Pubkey, lamports: u64, data: Vec<u8>, signer: bool, writable: bool, executable: bool }
+
+fn keyv(v: &Value, pid: &Pubkey) -> Pubkey {
+    match v {
+        Value::String(s) if s == "program" => *pid,
+        Value::String(s) if s == "token" => anchor_spl_token_id(),
+        Value::String(s) if s == "system" => solana_program::system_program::ID,
+        _ => pk(v),
+    }
+}
+fn anchor_spl_token_id() -> Pubkey { "TokenkegQfeZyiNwAJbNbGKPFXCWuBvf9Ss623VQ5DA".parse().unwrap() }
+
+fn zc_bytes<T: bytemuck::Pod + anchor_lang::Discriminator>(t: &T) -> Vec<u8> {
+    let mut d = T::DISCRIMINATOR.to_vec(); d.extend_from_slice(bytemuck::bytes_of(t)); d
+}
+
+fn entry_call(req: &Value) -> Value {
+    use marginfi_type_crate::types::MarginfiGroup;
+    let pid = marginfi::ID;
+    let ixname = req["ix"].as_str().unwrap();
+    let mut data = solana_program::hash::hash(format!("global:{}", ixname).as_bytes()).to_bytes()[..8].to_vec();
+    if let Some(h) = req.get("args_hex").and_then(|v| v.as_str()) {
+        for i in (0..h.len()).step_by(2) { data.push(u8::from_str_radix(&h[i..i + 2], 16).unwrap()); }
+    }
+    let mut accs: Vec<Acc> = Vec::new();
+    let specs = req["accounts"].as_array().unwrap();
+    // first pass: plain keys (PDAs are resolved in the second pass because they refer to other keys)
+    for a in specs {
+        let key = if a.get("pda").is_some() { Pubkey::default() } else { keyv(&a["key"], &pid) };
+        accs.push(Acc { key, owner: keyv(a.get("owner").unwrap_or(&json!("system")), &pid), lamports: 1_000_000_000, data: vec![],
+                        signer: a.get("signer").and_then(|v| v.as_bool()).unwrap_or(false), writable: a.get("writable").and_then(|v| v.as_bool()).unwrap_or(false),
+                        executable: a.get("executable").and_then(|v| v.as_bool()).unwrap_or(false) });
+    }
+    for (i, a) in specs.iter().enumerate() {
+        if let Some(p) = a.get("pda") {
+            let mut seeds: Vec<Vec<u8>> = Vec::new();
+            for sd in p.as_array().unwrap() {
+                match sd { Value::String(s) => seeds.push(s.as_bytes().to_vec()), Value::Number(n) => seeds.push(accs[n.as_u64().unwrap() as usize].key.to_bytes().to_vec()), _ => panic!("seed") }
+            }
+            let refs: Vec<&[u8]> = seeds.iter().map(|x| &x[..]).collect();
+            accs[i].key = Pubkey::find_program_address(&refs, &pid).0;
+        }
+    }
+    let keys: Vec<Pubkey> = accs.iter().map(|a| a.key).collect();
+    let kref = |v: &Value| -> Pubkey { keys[v.as_u64().unwrap() as usize] };
+    for (i, a) in specs.iter().enumerate() {
+        let kind = a.get("kind").and_then(|v| v.as_str()).unwrap_or("raw");
+        let f = a.get("fields");
+        accs[i].data = match kind {
+            "bank" => { let mut b = mk_bank(f.and_then(|x| x.get("set")));
+                        if let Some(x) = f.and_then(|x| x.get("group")) { b.group = kref(x); }
+                        if let Some(x) = f.and_then(|x| x.get("emissions_mint")) { b.emissions_mint = kref(x); }
+                        zc_bytes(&b) }
+            "group" => { let mut g = MarginfiGroup::zeroed();
+                         if let Some(m) = f.and_then(|x| x.as_object()) { for (k, v) in m { let kk = kref(v); match k.as_str() {
+                             "admin" => g.admin = kk, "delegate_emissions_admin" => g.delegate_emissions_admin = kk, "delegate_curve_admin" => g.delegate_curve_admin = kk,
+                             "delegate_limit_admin" => g.delegate_limit_admin = kk, "emode_admin" => g.emode_admin = kk, "risk_admin" => g.risk_admin = kk, _ => panic!("group field") } } }
+                         zc_bytes(&g) }
+            "mint" => { let mut d = vec![0u8; 82]; d[44] = 6; d[45] = 1; d }
+            "token_account" => { let mut d = vec![0u8; 165]; if let Some(x) = f.and_then(|x| x.get("mint")) { d[..32].copy_from_slice(&kref(x).to_bytes()); } d[108] = 1; d }
+            _ => vec![],
+        };
+    }
+    let mut lam: Vec<u64> = accs.iter().map(|a| a.lamports).collect();
+    let mut datas: Vec<Vec<u8>> = accs.iter().map(|a| a.data.clone()).collect();
+    let owners: Vec<Pubkey> = accs.iter().map(|a| a.owner).collect();
+    let res;
+    {
+        let mut infos: Vec<AccountInfo> = Vec::new();
+        let mut lit = lam.iter_mut(); let mut dit = datas.iter_mut();
+        for (i, a) in accs.iter().enumerate() {
+            infos.push(AccountInfo::new(&keys[i], a.signer, a.writable, lit.next().unwrap(), &mut dit.next().unwrap()[..], &owners[i], a.executable, 0));
+        }
+        res = marginfi::entry(&pid, &infos, &data);
+    }
+    let mut out = Map::new();
+    match res { Ok(_) => { out.insert("ok".into(), json!(true)); }
+                Err(e) => { out.insert("ok".into(), json!(false)); out.insert("err".into(), json!(format!("{:?}", e))); } }
+    let mut dumps = Vec::new();
+    for (i, a) in specs.iter().enumerate() {
+        if a.get("kind").and_then(|v| v.as_str()) == Some("bank") {
+            let b: &Bank = bytemuck::from_bytes(&datas[i][8..]);
+            dumps.push(json!({"index": i, "bank": dump_bank(b)}));
+        }
+    }
+    out.insert("accounts".into(), Value::Array(dumps));
+    Value::Object(out)
 }
 
 fn main() {
